@@ -130,6 +130,17 @@ class Flow:
             for e in p.get("pr", []):
                 if isinstance(e, dict) and "idx" in e:
                     work.append(e["idx"])
+            # field-sensitive step: component i of a tuple local that is built once, by a tuple aggregate, is operand i
+            pr = p.get("pr", [])
+            if pr and isinstance(pr[0], dict) and pr[0].get("of") == "tuple" and str(pr[0].get("f", "")).isdigit():
+                ds = self.defs.get(p["l"], [])
+                if len(ds) == 1 and ds[0][0] == "rv" and ds[0][3]["k"] == "agg" and ds[0][3].get("ak") == "tuple" and not ds[0][4].get("pr"):
+                    ops = ds[0][3].get("ops", [])
+                    i = int(pr[0]["f"])
+                    if i < len(ops):
+                        seen.add(p["l"]) if False else None
+                        push_op(ops[i])
+                        return
             work.append(p["l"])
 
         if isinstance(op, int):
